@@ -34,7 +34,10 @@ Lemma bloop_open f d p2 : bloop (S f) (91 :: d :: p2) =
   if memb d [46; 61; 58] then
     match find_close d p2 with
     | Some (inside, rest) =>
-      if d =? 58 then cont ([91; d] ++ inside ++ [d; 93]) rest false
+      if d =? 58 then match inside with
+                      | 94 :: _ => cont [] rest true
+                      | _ => cont ([91; d] ++ inside ++ [d; 93]) rest false
+                      end
       else match inside with
            | [x] => cont (if esc_in_bracket x then [92; x] else [x]) rest false
            | _ => cont [] rest true
@@ -83,3 +86,52 @@ Proof.
   rewrite (go_class_quoted_first [x]); [reflexivity|discriminate|].
   unfold emit. cbn [flat_map length]. destruct (esc_in_bracket x); cbn [app length]; lia.
 Qed.
+
+(** [:^name:], the negated class of package regexp, is no class name: a bracket expression that holds
+    one is rejected, whatever the name *)
+Lemma find_close_name name r :
+  forallb (fun c => negb (c =? 58)) name = true ->
+  find_close 58 (name ++ 58 :: 93 :: r) = Some (name, r).
+Proof.
+  induction name as [|x name IH]; intros H.
+  - reflexivity.
+  - cbn [forallb] in H. apply Bool.andb_true_iff in H. destruct H as [Hx H].
+    specialize (IH H). apply Bool.negb_true_iff in Hx.
+    change ((x :: name) ++ 58 :: 93 :: r) with (x :: (name ++ 58 :: 93 :: r)).
+    destruct name as [|y name]; cbn [app] in *.
+    + cbn [find_close]. rewrite Hx. cbn [andb]. cbn [find_close] in IH. rewrite IH. reflexivity.
+    + cbn [find_close]. rewrite Hx. cbn [andb]. cbn [find_close] in IH. rewrite IH. reflexivity.
+Qed.
+
+Theorem negated_class_rejected g f name rest :
+  forallb (fun c => negb (c =? 58)) name = true -> (0 < f)%nat ->
+  citems f g (91 :: 91 :: 58 :: 94 :: name ++ 58 :: 93 :: 93 :: rest) = CErr.
+Proof.
+  intros Hn Hf. destruct f as [|f]; [lia|].
+  set (p := 91 :: 58 :: 94 :: name ++ 58 :: 93 :: 93 :: rest).
+  assert (Hb : bloop (S (length p)) p = Some ([93], rest, true)).
+  { unfold p. rewrite bloop_open. cbv zeta.
+    change (94 :: name ++ 58 :: 93 :: 93 :: rest) with ((94 :: name) ++ 58 :: 93 :: 93 :: rest).
+    rewrite (find_close_name (94 :: name) (93 :: rest)); [|cbn [forallb]; rewrite Hn; reflexivity].
+    change (memb 58 [46; 61; 58]) with true. change (58 =? 58) with true. cbv iota.
+    cbn [length]. rewrite bloop_close. reflexivity. }
+  change (citems (S f) g (91 :: p)) with
+    (match bloop (S (length p)) p with
+     | None => if memb 93 p then CUnmodelled else CErr
+     | Some (t, rest0, coll) =>
+       if coll then CErr else
+       match go_class (2 * S (length ([] ++ t))) true ([] ++ t) with
+       | None => CErr
+       | Some (cs, []) => match citems f g rest0 with
+                          | COk l => COk ((RClass false cs, 91 :: (if false then [94] else []) ++ txt ([] ++ t)) :: l)
+                          | CErr => CErr
+                          | CUnmodelled => CUnmodelled
+                          end
+       | Some (_, _ :: _) => CUnmodelled
+       end
+     end).
+  rewrite Hb. reflexivity.
+Qed.
+
+Example negated_class_witness : compile1 true [91; 91; 58; 94; 97; 108; 112; 104; 97; 58; 93; 93] = CErr.
+Proof. vm_compute. reflexivity. Qed.
